@@ -120,10 +120,19 @@ class Ctx:
             names = params if is_static else params[1:]
             if not is_static and params:
                 env[params[0]] = recv
-            if len(call.args) > len(names):
+            argvals = []
+            for a in call.args:
+                if isinstance(a, _ast.Starred):
+                    sv = ev.ev(a.value)
+                    if not isinstance(sv, (tuple, list)):
+                        return _oe.NOT_MODELLED
+                    argvals.extend(sv)
+                else:
+                    argvals.append(ev.ev(a))
+            if len(argvals) > len(names):
                 return _oe.NOT_MODELLED
-            for n_, a in zip(names, call.args):
-                env[n_] = ev.ev(a)
+            for n_, av in zip(names, argvals):
+                env[n_] = av
             for k in call.keywords:
                 if k.arg is None or k.arg not in names + [a.arg for a in m.node.args.kwonlyargs]:
                     return _oe.NOT_MODELLED
@@ -137,7 +146,11 @@ class Ctx:
                     if n_ not in defaults:
                         return _oe.NOT_MODELLED
                     env[n_] = _oe.Evaluator({}, ctx.fold_sym(m, sym_map)).ev(defaults[n_])
-            sub = _oe.Evaluator(env, ctx.fold_sym(m, sym_map), opaque_return=False, call_value=lambda c2, e2: cv(c2, e2, depth + 1))
+            env["__class__"] = m.cls
+            def sub_cv(c2, e2, _d=depth + 1):
+                return cv(c2, e2, _d)
+            sub_cv.store_attr = store_attr
+            sub = _oe.Evaluator(env, ctx.fold_sym(m, sym_map), opaque_return=False, call_value=sub_cv)
             out = sub.run(_A.body_of(m.node))
             if out.kind == "raise":
                 raise _oe.ModelRaise(out)
@@ -148,6 +161,17 @@ class Ctx:
                 v = extra(call, ev)
                 if v is not _oe.NOT_MODELLED:
                     return v
+            cls_standin = ev.env.get(call.func.id) if isinstance(call.func, _ast.Name) else None
+            if depth < max_depth and isinstance(cls_standin, _oe.Obj) and set(cls_standin.__dict__) == {"_cls"}:
+                # cls(...) inside a class method: `cls` is the class stand-in the method was entered with
+                k0 = cls_standin.__dict__["_cls"]
+                obj = _oe.Obj(_cls=k0)
+                init = prog.find_method(k0, "__init__")
+                if init is not None:
+                    run_method(init, obj, call, ev, depth)
+                elif call.args or call.keywords:
+                    return _oe.NOT_MODELLED
+                return obj
             if depth < max_depth and classes and isinstance(call.func, _ast.Name) and call.func.id in classes and call.func.id not in ev.env:
                 # ClassName(...): a fresh model object of that class, initialised by the __init__ the MRO selects
                 k0 = classes[call.func.id]
@@ -169,12 +193,57 @@ class Ctx:
                 return _oe.NOT_MODELLED
             if depth >= max_depth or not isinstance(call.func, _ast.Attribute):
                 return _oe.NOT_MODELLED
+            if isinstance(call.func.value, _ast.Call) and isinstance(call.func.value.func, _ast.Name) and call.func.value.func.id == "super" and len(call.func.value.args) in (0, 2):
+                # super().m(...) / super(K, self).m(...): the next definition of m after the class whose method is being evaluated
+                here = ev.env.get("__class__")
+                me = ev.env.get("self", ev.env.get("cls"))
+                if call.func.value.args:
+                    a_k, a_me = call.func.value.args
+                    try:
+                        me = ev.ev(a_me)
+                    except _oe.Unsupported:
+                        return _oe.NOT_MODELLED
+                    rk = prog.resolve(here.module, a_k.id) if isinstance(a_k, _ast.Name) and here is not None else None
+                    here = rk if hasattr(rk, "methods") else here
+                if here is None or not isinstance(me, _oe.Obj) or "_cls" not in me.__dict__:
+                    return _oe.NOT_MODELLED
+                chain = prog.mro(me.__dict__["_cls"])
+                after = chain[chain.index(here) + 1:] if here in chain else []
+                for kk in after:
+                    for cand in kk.methods.get(call.func.attr, []):
+                        return run_method(cand, me, call, ev, depth)
+                if call.func.attr == "__init__":
+                    return None  # object.__init__
+                return _oe.NOT_MODELLED
+            try:
+                maybe_enum = ev.ev(call.func.value) if isinstance(call.func.value, (_ast.Name, _ast.Attribute)) else None
+            except _oe.Unsupported:
+                maybe_enum = None
+            if isinstance(maybe_enum, _oe.EnumModel):
+                a0 = ev.ev(call.args[0]) if call.args else None
+                ms = maybe_enum.members()
+                how = call.func.attr
+                if how in ("from_tag", "from_label", "from_attr", "get_label", "get_tag", "get_description", "contains") and len(call.args) >= 1:
+                    hit = [m_ for m_ in ms if (how in ("from_tag", "get_label", "get_description") and m_.tag == a0) or (how in ("from_label", "get_tag") and isinstance(a0, str) and m_.label.upper() == a0.upper())
+                           or (how in ("from_attr", "contains") and (m_ is a0 or (isinstance(a0, int) and not isinstance(a0, bool) and m_.tag == a0) or (isinstance(a0, str) and m_.label.upper() == a0.upper())))]
+                    if how == "contains":
+                        return bool(hit)
+                    if not hit:
+                        if maybe_enum.__dict__.get("_soft") and how == "from_tag" and isinstance(a0, int):
+                            return _oe.EnumMember(_enum=maybe_enum.__dict__["_enumcls"].name, name=f"Unknown_{a0:#x}", tag=a0, label=f"Unknown ({a0:#x})", description=None)
+                        raise _oe.ModelRaise(_oe.Outcome("raise", None, call))
+                    return {"get_label": hit[0].label, "get_tag": hit[0].tag, "get_description": hit[0].description}.get(how, hit[0])
+                if how == "tags" and not call.args:
+                    return tuple(m_.tag for m_ in ms)
+                if how == "labels" and not call.args:
+                    return tuple(m_.label for m_ in ms)
+                return _oe.NOT_MODELLED
             if classes and isinstance(call.func.value, _ast.Name) and call.func.value.id in classes and call.func.value.id not in ev.env:
                 # ClassName.static_or_class_method(...)
                 k0 = classes[call.func.value.id]
                 m0 = prog.find_method(k0, call.func.attr)
                 if m0 is not None and any(isinstance(d, _ast.Name) and d.id in ("staticmethod", "classmethod") for d in m0.node.decorator_list):
-                    return run_method(m0, _oe.Obj(_cls=k0), call, ev, depth)
+                    return run_method(m0, ctx.class_standin(k0), call, ev, depth)
                 return _oe.NOT_MODELLED
             try:
                 recv = ev.ev(call.func.value)
@@ -185,8 +254,38 @@ class Ctx:
                 return _oe.NOT_MODELLED
             m = prog.find_method(k, call.func.attr)
             if m is None:
+                if not call.args and not call.keywords:
+                    # attribute read on a class-tagged model object that is neither a data attribute nor a property: a class constant
+                    for kk in prog.mro(k):
+                        if call.func.attr in kk.consts:
+                            class _Ctx:  # the constant is folded / evaluated in the context of the class that defines it
+                                module, cls, node = kk.module, kk, kk.node
+                            try:
+                                return _oe.Evaluator({}, ctx.fold_sym(_Ctx, sym_map), opaque_return=False).ev(kk.consts[call.func.attr])
+                            except _oe.Unsupported:
+                                return _oe.NOT_MODELLED
                 return _oe.NOT_MODELLED
             return run_method(m, recv, call, ev, depth)
+
+        def store_attr(base, attr, value, ev, st):
+            """`obj.attr = value` on a class-tagged model object whose class defines `attr` as a property with a setter."""
+            k = base.__dict__.get("_cls")
+            if k is None:
+                return False
+            for kk in prog.mro(k):
+                for cand in kk.methods.get(attr, []):
+                    if any(isinstance(d, _ast.Attribute) and d.attr == "setter" for d in cand.node.decorator_list):
+                        tmp = "__setval"
+                        ev.env[tmp] = value
+                        try:
+                            fake = _ast.copy_location(_ast.Call(func=_ast.Attribute(value=_ast.Name(id="self", ctx=_ast.Load()), attr=attr, ctx=_ast.Load()),
+                                                                args=[_ast.Name(id=tmp, ctx=_ast.Load())], keywords=[]), st)
+                            run_method(cand, base, fake, ev, 0)
+                        finally:
+                            ev.env.pop(tmp, None)
+                        return True
+            return False
+        cv.store_attr = store_attr
         return cv
 
     def new_helpers_called(self, fn):
@@ -237,6 +336,33 @@ class Ctx:
                 return n
         return T().visit(_A.clone(e))
 
+    def class_standin(self, k):
+        """The one model value that stands for class `k` itself (what `cls` is bound to in a class method; `K` as a value)."""
+        from .engines import ordereval as _oe
+        cache = self.__dict__.setdefault("_class_standins", {})
+        if k.qual not in cache:
+            cache[k.qual] = _oe.Obj(_cls=k)
+        return cache[k.qual]
+
+    def enum_model(self, k):
+        """The model of an SpsdkEnum class (None if `k` is not one): members with tag / label / description, cached per program."""
+        from .engines import ordereval as _oe
+        cache = self.__dict__.setdefault("_enum_models", {})
+        if k.qual in cache:
+            return cache[k.qual]
+        model = None
+        if any(b.name in ("SpsdkEnum", "SpsdkSoftEnum") for b in self.prog.mro(k)[1:]):
+            members = []
+            for kk in reversed(self.prog.mro(k)):
+                for n_, v_ in kk.consts.items():
+                    val = self.prog.fold(v_, kk.module, kk)
+                    if isinstance(val, tuple) and len(val) >= 2 and isinstance(val[0], int) and isinstance(val[1], str):
+                        members.append(_oe.EnumMember(_enum=k.name, name=n_, tag=val[0], label=val[1], description=val[2] if len(val) > 2 else None))
+            if members:
+                model = _oe.EnumModel(_enumcls=k, _members=tuple(members), _soft=any(b.name == "SpsdkSoftEnum" for b in self.prog.mro(k)), **{m.name: m for m in members})
+        cache[k.qual] = model
+        return model
+
     def fold_sym(self, fn, mapping=None):
         """A `sym` function for the evaluator: values for the expressions named in `mapping` (by normalised text), and the folded
         value of named constants / calcsize(...) in the context of function `fn` (so `16`, `Cls.SIZE` and `calcsize('<4L')` agree)."""
@@ -257,6 +383,21 @@ class Ctx:
                     v = _UNK
                 if isinstance(v, (int, str, bytes)) and not isinstance(v, bool):
                     return v
+            # an enum class / an enum member of the analysed program: its model
+            if isinstance(x, _ast.Name) or (isinstance(x, _ast.Attribute) and isinstance(x.value, _ast.Name)):
+                try:
+                    k = prog.resolve(fn.module, x.id if isinstance(x, _ast.Name) else x.value.id)
+                except Exception:  # noqa: BLE001
+                    k = None
+                if hasattr(k, "consts") and hasattr(k, "methods"):
+                    em = self.enum_model(k)
+                    if em is not None:
+                        if isinstance(x, _ast.Name):
+                            return em
+                        if x.attr in em.__dict__ and not x.attr.startswith("_"):
+                            return em.__dict__[x.attr]
+                    elif isinstance(x, _ast.Name):
+                        return self.class_standin(k)  # a class of the program used as a value (`cls == K`, `isinstance(x, K)`)
             return None
         return sym
 
